@@ -28,7 +28,7 @@
    statement is FALSE of the current tree: the *_refuted theorems below are the
    bytecode of three accepted programs (known findings, known/C04.json); the
    harness replays their sources against the real compiler and VM on every run. *)
-From V Require Import Lang.Elab Lang.Wt Proofs.ElabSound.
+From V Require Import Lang.Elab Lang.Wt Proofs.ElabSound Proofs.ElabRawSound.
 From V Require Import Lang.Codegen Lang.Verify Proofs.VmInv Proofs.VerifyProofs Proofs.CodegenVerifies.
 Local Open Scope Z_scope.
 
@@ -221,7 +221,43 @@ Theorem C04_elab_promotion :
      conv_exists a (lub a b) = true /\ conv_exists b (lub a b) = true) /\
   (forall decls strs nre f t e e',
      conv_to f t e = EOk e' -> etype decls strs nre e = Some f -> etype decls strs nre e' = Some t).
-Proof. repeat split; [apply lub_comm | apply lub_conv_exists; auto | apply lub_conv_exists; auto | apply conv_to_typed]. Qed.
+Proof. repeat split; [apply lub_comm | apply lub_conv_exists; auto | apply lub_conv_exists; auto | apply ElabSound.conv_to_typed]. Qed.
+
+(* ---- the elaboration itself (no validation step), expression language ----
+   For EVERY expression form of the pre-checker tree (literals, captures,
+   arithmetic / comparison with the conversions inserted by lub, bitwise,
+   ~, &&, ||, pattern match, =~, metric reads and x++ with their index keys,
+   int() float() string(), len, tolower, strtol, subst in both forms,
+   timestamp, getfilename) and for key lists: if [ex] succeeds from a
+   well-formed state and the warning list after it is empty, then it was empty
+   before, and in EVERY final program [p] that extends the state reached
+   ([ext]: the metric types instantiated so far are p's declared types, p's
+   tables are at least as long; [arity_ok]: p declares the key counts) the
+   produced core expression is accepted by the class inference of
+   Proofs/CodegenVerifies.v ([ce p e' = Some c]) with a class that matches its
+   checker type ([typed]).  The state-threading invariant (metric types once
+   instantiated never change: the first-use rule) is [C04_elab_raw_state_grows].
+   Statements and blocks, and the assembly into [accepts (elab_raw u)], are
+   NOT proved (time); for them the validated [elab] above is the theorem. *)
+Theorem C04_elab_raw_sound_expr :
+  forall decls caps e st e' t st',
+    ex decls caps e st = EOk (e', t, st') -> wf decls st -> e_warn st' = [] ->
+    e_warn st = [] /\
+    forall p, arity_ok decls p -> ext st' p -> typed p e' t /\ exists c, ce p e' = Some c.
+Proof. exact elab_raw_sound_expr. Qed.
+
+Theorem C04_elab_raw_sound_keys :
+  forall decls caps ks st ks' st',
+    exs decls caps ks st = EOk (ks', st') -> wf decls st -> e_warn st' = [] ->
+    e_warn st = [] /\
+    forall p, arity_ok decls p -> ext st' p -> keys_ok p ks' = true /\ exprs_len ks' = pexprs_len ks.
+Proof. exact elab_raw_sound_keys. Qed.
+
+Theorem C04_elab_raw_state_grows :
+  forall decls caps e st e' t st',
+    ex decls caps e st = EOk (e', t, st') -> wf decls st ->
+    wf decls st' /\ forall p, ext st' p -> ext st p.
+Proof. exact elab_raw_state_grows. Qed.
 
 (* counter c ; gauge g ; /x(\d+) (\d+\.\d+)/ { c += $1 ; g = $2 * $1 ; $1 > 3 { c++ } } *)
 Definition ex_pre : pre_prog :=
@@ -256,6 +292,9 @@ Print Assumptions C04_elab_sound.
 Print Assumptions C04_elab_accepts_representable.
 Print Assumptions C04_elab_never_faults.
 Print Assumptions C04_elab_promotion.
+Print Assumptions C04_elab_raw_sound_expr.
+Print Assumptions C04_elab_raw_sound_keys.
+Print Assumptions C04_elab_raw_state_grows.
 Print Assumptions C04_ex_elab.
 Print Assumptions C04_ex_elab_mixed.
 Print Assumptions C04_codegen_verifies_partial.
